@@ -101,6 +101,11 @@ func c15Scenarios(tier string) (rulesSc, lockSc []CScenario) {
 		)
 	}
 	lockSc = append(lockSc, big...)
+	// A damaged record: the batch that names its key fails as a whole, and everybody (the batch included) still gets an answer.
+	rulesSc = append(rulesSc,
+		CScenario{Name: "atts[0 1] with a damaged record for k1||att(2);att(0)", Garbage: []int{1}, Threads: [][]CReq{{attsN([]int{0, 1}, 0, 1)}, {att1(2, 0, 1), att1(0, 1, 2)}}},
+		CScenario{Name: "atts[1 0] with a damaged record for k1||atts[0 2]", Garbage: []int{1}, Threads: [][]CReq{{attsN([]int{1, 0}, 0, 1)}, {attsN([]int{0, 2}, 1, 2)}}},
+	)
 	// An instance that has already served thousands of other keys.
 	lockSc = append(lockSc, CScenario{Name: "att(0)||att(0)||atts[1 0] after many other keys", WarmKeys: warmKeys(tier), Threads: [][]CReq{{att1(0, 0, 1)}, {att1(0, 1, 2)}, {attsN([]int{1, 0}, 2, 3)}}})
 	rulesSc = append(rulesSc, big[1]) // with the real rules and store: the smallest size only (the locks are what matters)
